@@ -154,7 +154,7 @@ impl ScannerConfig {
             let line_comments_rx = self
                 .line_comments
                 .iter()
-                .map(|s| format!(r###"{s}.*(\r\n|\r|\n)?"###))
+                .map(|s| format!(r###"{s}[^\r\n]*(\r\n|\r|\n)?"###))
                 .collect::<Vec<String>>()
                 .join("|");
             terminal_mappings.push((
